@@ -102,7 +102,8 @@ func values(name string) []interface{} {
 	v1 := mustVer("1.0-1")
 	switch name {
 	case "S":
-		out := []interface{}{"", "x", "two words"}
+		// incl. values longer than a bufio buffer (4096) once written as "S: ..."
+		out := []interface{}{"", "x", "two words", strings.Repeat("long ", 900) + "end", strings.Repeat("x", 4093), strings.Repeat("y", 8200)}
 		for _, t := range gen.AuditStrings(func(s string) bool { return gen.OneLine(s) && strings.TrimSpace(s) == s }, 3) {
 			out = append(out, t) // alphabet audit
 		}
@@ -122,7 +123,11 @@ func values(name string) []interface{} {
 	case "B":
 		return []interface{}{false, true}
 	case "L":
-		out := []interface{}{[]string(nil), []string{"a"}, []string{"a", "b", "c"}}
+		long := make([]string, 1200)
+		for i := range long {
+			long[i] = fmt.Sprintf("e%d", i)
+		}
+		out := []interface{}{[]string(nil), []string{"a"}, []string{"a", "b", "c"}, long}
 		for _, t := range gen.AuditStrings(gen.Nameish, 2) {
 			out = append(out, []string{t}, []string{"a", t, "c"})
 		}
@@ -143,7 +148,11 @@ func values(name string) []interface{} {
 	case "V":
 		return []interface{}{version.Version{}, mustVer("1.0-1"), mustVer("2:3.0~rc1")}
 	case "D":
-		return []interface{}{dependency.Dependency{}, mustDep("foo"), mustDep("foo (>= 1.0) | bar [amd64], ${misc:Depends}")}
+		var rels []string
+		for i := 0; i < 400; i++ {
+			rels = append(rels, fmt.Sprintf("lib%d-dev (>= %d.0)", i, i))
+		}
+		return []interface{}{dependency.Dependency{}, mustDep("foo"), mustDep("foo (>= 1.0) | bar [amd64], ${misc:Depends}"), mustDep(strings.Join(rels, ", "))}
 	case "A":
 		return []interface{}{dependency.Arch{}, mustArch("amd64"), mustArch("linux-any")}
 	case "AL":
@@ -664,6 +673,8 @@ func Run(r *mc.Run) {
 	// pass-through
 	known := [][2]string{{"Known1", "k one"}, {"Known-Two", "a, b"}, {"Known-3", "1:2.0-1"}}
 	unknown := [][2]string{{"X-Extra", "u1"}, {"Zeta", "u 2"}}
+	// unknown fields whose names differ from a known key only in letter case are unknown fields all the same
+	unknownAlt := [][2]string{{"known1", "case-variant 1"}, {"KNOWN-TWO", "case-variant 2"}}
 	var docs [][][2]string
 	// all interleavings of every subset of known (in order) with every subset of unknown (in order)
 	for km := 0; km < 8; km++ {
@@ -677,8 +688,17 @@ func Run(r *mc.Run) {
 					us = append(us, unknown[b])
 				}
 			}
-			// both orders of the unknown pair too
+			// both orders of the unknown pair too, and the same with case-variant names
+			var usAlt [][2]string
+			for b := 0; b < 2; b++ {
+				if um&(1<<b) != 0 {
+					usAlt = append(usAlt, unknownAlt[b])
+				}
+			}
 			orders := [][][2]string{us}
+			if len(usAlt) > 0 {
+				orders = append(orders, usAlt)
+			}
 			if len(us) == 2 {
 				orders = append(orders, [][2]string{us[1], us[0]})
 			}
